@@ -369,11 +369,28 @@ def rand_gate(rng, width):
     return spec("scalar", value=1.5, offset=rng.randint(0, width))
 
 
+def rand_rotation_or_preparation(rng, width):
+    """ Rotations of one colour interleaved with Ket/Bra that shift the wires. """
+    for _ in range(50):
+        if rng.random() < .6:
+            s = spec(rng.choice(ONE_QUBIT_ROT), rand_phase(rng))
+        else:
+            s = spec(rng.choice(["Ket", "Bra"]), bits=(rng.randint(0, 1),))
+        k_in, k_out = arity(s)
+        if k_in > width or width - k_in + k_out > 3:
+            continue
+        s["offset"] = rng.randint(0, width - k_in)
+        return s
+    return spec("scalar", value=1.5, offset=rng.randint(0, width))
+
+
 def random_circuit(rng, ctx):
     n_in = rng.randint(0, 3)
     steps, width = [], n_in
+    biased = rng.random() < .3
     for _ in range(rng.randint(1, 8)):
-        s = rand_gate(rng, width)
+        s = rand_rotation_or_preparation(rng, width) if biased\
+            else rand_gate(rng, width)
         steps.append(s)
         width += arity(s)[1] - arity(s)[0]
     diagram = check_translation(ctx, n_in, steps)
